@@ -127,7 +127,8 @@ Result update_score(const std::vector<Result>& results, uint32_t idx)
         isUnknown |= (results[index] == kUNKNOWN);
 
         // double push if pawn is on RANK_2
-        if (rank(wPawn) == RANK_2)
+        // (the pawn cannot jump over a king standing on the square in front of it)
+        if (rank(wPawn) == RANK_2 && wKing != nextPawnSq && bKing != nextPawnSq)
         {
             nextPawnSq = make_square(RANK_4, file(wPawn));
             uint32_t index = getIndex(BLACK, wKing, nextPawnSq, bKing);
